@@ -171,7 +171,7 @@ CHECK = {
     "manifest": {
         "engine": "PEERSIM (GATE)",
         "technique": "explicit enumeration of all fate/marking/feedback/process-fate assignments, each explored over all orders of peer events by the controlled scheduler (stateless model checking of the real run()/report())",
-        "text": "Every assignment of {pass, assertion failure, client-reported error, empty result, never answered, server start failure} x {unmarked, known-failing, known-flaky} x {peer feedback or not} x {client exits with status 0 / non-zero after k answers} to 1 case (all combinations) and 2 cases (all fates x all markings; feedback and client exit on a reduced set; 3 cases in the thorough tier) is run through the real run() and report() with one case per server instance, and ordered multi-case batches of up to 2 (3) cases through runTestCasesForServer + report() (server dies after k, client pipe closes at k, unusable server, feedback); every order of the peers' events is explored (0 preemptions quick, 1 thorough). Oracle: the reference truth table of the statement; failing cases named on FAILED lines; totals add up to the number selected.",
+        "text": "Every assignment of {pass, assertion failure, client-reported error, empty result, never answered, server start failure} x {unmarked, known-failing, known-flaky} x {peer feedback or not} x {client exits with status 0 / non-zero after k answers} to 1 case (all combinations) and 2 cases (all fates x all markings; feedback and client exit on a reduced set; 3 cases in the thorough tier) is run through the real run() and report() with one case per server instance, and ordered multi-case batches of up to 2 (3) cases through runTestCasesForServer + report() (server dies after k, client pipe closes at k, unusable server, feedback); every order of the peers' events is explored (0 preemptions quick, 1 thorough). Oracle: the reference truth table of the statement; failing cases named on FAILED lines; totals add up to the number selected. Added after the seeding rounds: client-reported errors with empty / blank / multi-line text; result-table histories with tracing, the report asked for at once or after quiescence; a runner stderr that takes 4 / 30 virtual seconds per line; unit c04-binary: selection x known-failing x known-flaky x mode through the real connectconformance binary and reference peers (flag wiring and exit status of main.go).",
         "note": "Fake peers, virtual time; plus c04-binary: the truth table (selection x known-failing x known-flaky x mode) through the real binary and the real reference peers, exit status included.",
         "design_ref": "DESIGN.md §2.3, §4 C04",
     },
